@@ -277,11 +277,23 @@ Auth::Basic::Config::decode(char const *proxy_auth, const HttpRequest *request, 
         auth_user = lb;
         assert(auth_user != nullptr);
     } else {
-        /* replace the current cached password with the new one */
         Auth::Basic::User *basic_auth = dynamic_cast<Auth::Basic::User *>(auth_user.getRaw());
         assert(basic_auth);
-        basic_auth->updateCached(local_basic);
-        auth_user = basic_auth;
+        if (basic_auth->credentials() == Auth::Pending && basic_auth->passwd &&
+                strcmp(basic_auth->passwd, local_basic->passwd) != 0) {
+            /* A helper is validating a different password for this user name
+             * right now. Replacing the cached password would make the pending
+             * verdict apply to our password (and ours to theirs), so keep
+             * these credentials out of the cache and validate them alone. */
+            debugs(29, 4, "not sharing cached user '" << lb->username() << "' while another password is being validated");
+            lb->auth_type = Auth::AUTH_BASIC;
+            lb->expiretime = current_time.tv_sec;
+            auth_user = lb;
+        } else {
+            /* replace the current cached password with the new one */
+            basic_auth->updateCached(local_basic);
+            auth_user = basic_auth;
+        }
     }
 
     /* link the request to the in-cache user */
